@@ -193,6 +193,7 @@ def registry_pair(case, ctx, cfg):
 
 
 def oracle_hist(case, ctx):
+    earlier = []
     for k, cfg in enumerate(case['cfgs']):
         if (case['seed'] + k) % 3 == 0:
             registry_pair(case, ctx, cfg)
@@ -216,7 +217,7 @@ def oracle_hist(case, ctx):
                     if not env.state_space.contains(st_):
                         bad = [k for k in st_ if not env.state_space[k].contains(st_[k])]
                         ctx.fail(f'{cfg["base"]} {cfg["mods"]} [{name}] {what}: state outside the advertised gym state_space (keys {bad})', {'kind': 'gym_space'})
-                    check_in_space(ctx, f'{cfg["base"]} [{name}] {what} state', srep.space, st_, STATE_KEYS)
+                    check_in_space(ctx, f'{cfg["base"]} [{name}] {what} state', outer.state_representation.space, st_, STATE_KEYS)
 
             check(guarded(ctx, 'gym reset', env.reset), 'reset')
             n = env.action_space.n
@@ -225,6 +226,27 @@ def oracle_hist(case, ctx):
                 check(obs, f'step {i}')
                 if done:
                     check(guarded(ctx, 'gym reset', env.reset), 'reset')
+                if i == len(case['actions']) // 2:
+                    # switch representation in mid-episode: the very next read must already be inside the newly advertised space
+                    other = reps.NAMES[(reps.NAMES.index(name) + 1 + case['seed'] % 2) % 3]
+                    env.set_observation_representation(other)
+                    if srep is not None:
+                        env.set_state_representation(other)
+                    check(env.observation, f'read right after switching {name} -> {other}')
+                    env.set_observation_representation(name)
+                    if srep is not None:
+                        env.set_state_representation(name)
+                    check(env.observation, f'read right after switching back to {name}')
+            # environments built earlier in this process are used again: they must still be inside *their* advertised spaces
+            for (penv, pname, pcfg) in earlier[-7:]:
+                obs, r, done, info = guarded(ctx, 'gym step (earlier environment)', penv.step, 0)
+                if not penv.observation_space.contains(obs):
+                    bad = [k for k in obs if not penv.observation_space[k].contains(obs[k])]
+                    ctx.fail(f'{pcfg["base"]} [{pname}]: used again after {cfg["base"]} [{name}] was built in the same process: observation outside its advertised gym observation_space (keys {bad})',
+                             {'kind': 'gym_space'})
+                if done:
+                    penv.reset()
+            earlier.append((env, name, cfg))
             ctx.ev.case([cfg, name, case['seed'], case['actions']], nt=True, classes=['rep:' + name, 'cfg:' + cfg['base'].replace('.yaml', '')] + (['perturbed'] if cfg['mods'] else []),
                         sample={'cfg': cfg, 'representation': name, 'steps': len(case['actions'])})
 
